@@ -59,6 +59,10 @@ static void handle(int argc, char** argv);
 int main(void)
 {
 	static char line[1 << 22];
+	static char obuf[1 << 16];
+	/* line-buffered: when a sanitizer aborts the process, everything printed for the
+	   operations completed before is already out, so the crash is attributed to the right op */
+	setvbuf(stdout, obuf, _IOLBF, sizeof obuf);
 	while (fgets(line, sizeof line, stdin))
 	{
 		char* argv[MAXTOK];
